@@ -221,3 +221,40 @@ Proof. exact probing_vocab_id_is_position. Qed.
 (* every hash is a 64-bit value *)
 Theorem C04_hash_for_vocab_range : forall w, (0 <= hash_for_vocab w < 2 ^ 64)%Z.
 Proof. exact hash_for_vocab_range. Qed.
+
+(* ---- Size() / SetupMemory agreement (lm/model.cc:23-35,59-78; lm/search_trie.hh Size; lm/trie.cc; lm/bhiksha.cc) ------------------------
+   The loader computes the extent of the vocabulary and of the search structure from the counts in the header BEFORE it reads them
+   (C04/TrieSize.v: TrieSearch::Size = Unigram::Size + BitPackedMiddle::Size ... + BitPackedLongest::Size, ArrayBhiksha::Size,
+   SortedVocabulary::Size).  For the trie of every table that satisfies the loaders' invariant TInv (what both loader models are proved
+   to establish), these functions of the header's counts are exactly the number of bytes the model's search structure and vocabulary
+   region occupy -- the hypothesis `body_size` of C04_write_then_load / C04_model_file_loads_back, discharged for `trie` and `trie -a`.
+   Ingredients: the arrays have one record per table entry of that order (C04_level_count: the pre-order keys of the forest are the
+   table's keys, each once), ArrayBhiksha's offset table has ArrayCount slots and its region's size does not depend on the alignment
+   padding (C04_trie_bytes_size), and the configured bits are found where UpdateConfigFromBinary reads them. *)
+From Kenlm Require Import LM.QueryProofs C03.TrieLayout C03.TrieLayoutProofs C03.TrieMem C03.TrieTableProofs C03.TrieWalkProofs
+                          C04.TrieSize C04.TrieSizeProofs C04.TrieCounts C04.TrieSizeEnd.
+Theorem C04_trie_image_size : forall (array : bool) cfg n V (t : atable) pz M,
+  (2 <= n)%nat -> (0 <= V < 2 ^ 32)%Z -> (0 <= cfg)%Z -> TInv n (alookup t) M -> NoDup (map fst t) ->
+  (forall w, alookup t [w] <> None <-> (Z.of_N w < V)%Z) ->
+  (forall k e, alookup t k = Some e -> (- 2 ^ 24 < e_prob e < 2 ^ 24 /\ - 2 ^ 24 < e_bo e < 2 ^ 24)%Z) ->
+  (Z.of_nat (n * length t) < 2 ^ 57)%Z ->
+  Z.of_nat (length (C03.TrieImage.trie_image array cfg n t pz)) = trie_size array cfg (trie_counts n t).
+Proof. exact trie_image_size. Qed.
+
+Theorem C04_sorted_vocab_region_size : forall n (t : atable) words, (1 <= n)%nat -> S (length words) = length (order_entries t 1) ->
+  Z.of_nat (length (sorted_vocab_bytes words)) = sorted_vocab_size (nth 0 (trie_counts n t) 0%Z).
+Proof. exact sorted_vocab_region_size. Qed.
+
+(* for any level lists with ordered next pointers (Lok), whatever they were built from *)
+Theorem C04_trie_bytes_size : forall (array : bool) cfg (ls : levels pb) vocab,
+  (0 <= cfg)%Z -> (2 <= length ls)%nat -> Lok vocab ls ->
+  Z.of_nat (length (trie_bytes array cfg (mk_trie array cfg ls))) = trie_size array cfg (map (fun l => Z.of_nat (length l)) ls).
+Proof. exact trie_bytes_size. Qed.
+
+Theorem C04_level_count : forall (V : Type) (dv : V) t j, table_ok V t ->
+  length (lev V j (of_table V dv t)) = length (filter (has_len (S j)) (map fst t)).
+Proof. exact level_count. Qed.
+
+Theorem C04_bhiksha_config_read_back : forall cfg (ls : levels pb), (3 <= length ls)%nat ->
+  bhiksha_config_from (trie_bytes true cfg (mk_trie true cfg ls)) (Z.of_nat (length (nth 0 ls []))) = (0%Z, Z.land cfg 255).
+Proof. exact bhiksha_config_read_back. Qed.
